@@ -8,6 +8,7 @@ CONSTANTS
   BugC = "resolve_before_put"
   FixC = "none"
   RemoveC = FALSE
+  GenC = FALSE
 VIEW View
 INVARIANT TypeOK
 INVARIANT NoStuck
